@@ -867,3 +867,167 @@ Proof.
   - apply pairwise_pairs in Hs. eapply Con; eassumption.
 Qed.
 End Node.
+
+(* ================================================================ induction on types *)
+Definition opt_all (Q : list (cinfo * ty) -> Prop) (ext : option (list (cinfo * ty))) : Prop :=
+  match ext with Some a => Q a | None => True end.
+
+Section TyInd.
+Variable P : ty -> Prop.
+Hypothesis HPrim : forall p, P (TPrim p).
+Hypothesis HEnum : forall items, P (TEnum items).
+Hypothesis HCons : forall k r1 ext r2,
+  Forall (fun c => P (snd c)) r1 ->
+  opt_all (Forall (fun c => P (snd c))) ext ->
+  Forall (fun c => P (snd c)) r2 -> P (TCons k r1 ext r2).
+Hypothesis HSeqOf : forall e, P e -> P (TSeqOf e).
+Hypothesis HRef : forall r, P (TRef r).
+
+Fixpoint ty_ind' (t : ty) : P t :=
+  match t with
+  | TPrim p => HPrim p
+  | TEnum items => HEnum items
+  | TCons k r1 ext r2 =>
+      let go := fix go (l : list (cinfo * ty)) : Forall (fun c => P (snd c)) l :=
+        match l with
+        | [] => Forall_nil _
+        | (c, t') :: l' => Forall_cons (c, t') (ty_ind' t') (go l')
+        end in
+      HCons k r1 ext r2 (go r1)
+        (match ext as e return opt_all (Forall (fun c => P (snd c))) e with
+         | Some a => go a
+         | None => I
+         end) (go r2)
+  | TSeqOf e => HSeqOf e (ty_ind' e)
+  | TRef r => HRef r
+  end.
+End TyInd.
+
+(* ================================================================ the whole module *)
+Section Module.
+Variable m : module.
+
+Lemma nres_app_ok : forall a b, nres_app a b = NOk [] -> a = NOk [] /\ b = NOk [].
+Proof.
+  destruct a as [|x], b as [|y]; simpl; intro H; try discriminate.
+  inversion H as [E]. apply app_eq_nil in E. destruct E; subst. auto.
+Qed.
+
+Definition quiet (r : nres) : Prop := r = NOk [] \/ r = NCrash.
+Lemma nres_app_quiet : forall a b, quiet a -> quiet b -> quiet (nres_app a b).
+Proof.
+  intros a b [Ha|Ha] [Hb|Hb]; subst; simpl; unfold quiet; auto.
+Qed.
+
+Fixpoint sub_go (l : list (cinfo * ty)) : list ty :=
+  match l with [] => [] | (_, t') :: l' => subtypes t' ++ sub_go l' end.
+
+Lemma subtypes_cons : forall k r1 ext r2,
+  subtypes (TCons k r1 ext r2) =
+  TCons k r1 ext r2 :: sub_go r1 ++ sub_go r2 ++ match ext with Some a => sub_go a | None => [] end.
+Proof. reflexivity. Qed.
+
+Lemma sub_go_In : forall l t', In t' (sub_go l) -> exists c t, In (c, t) l /\ In t' (subtypes t).
+Proof.
+  induction l as [|[c t] l IH]; intros t' H; simpl in H; [contradiction|].
+  apply in_app_or in H. destruct H as [H|H].
+  - exists c, t. split; [left; reflexivity | exact H].
+  - apply IH in H. destruct H as [c' [t'' [H1 H2]]]. exists c', t''. split; [right; exact H1 | exact H2].
+Qed.
+
+Definition go_check (fuel : nat) (p : path) :=
+  fix go (pos : nat) (l : list (cinfo * ty)) : nres :=
+    match l with
+    | [] => NOk []
+    | (c, t') :: l' => nres_app (check_ty m fuel (p ++ [pos]) t') (go (S pos) l')
+    end.
+
+Lemma check_ty_cons : forall fuel p k r1 ext r2,
+  check_ty m fuel p (TCons k r1 ext r2) =
+  nres_app (check_node m fuel p (TCons k r1 ext r2))
+    (nres_app (go_check fuel p 0 r1)
+       (nres_app (go_check fuel p (length r1) r2)
+          match ext with Some a => go_check fuel p (S (length (root_of r1 r2))) a | None => NOk [] end)).
+Proof. reflexivity. Qed.
+
+Lemma go_check_ok : forall fuel p l pos, go_check fuel p pos l = NOk [] ->
+  forall c t, In (c, t) l -> exists p', check_ty m fuel p' t = NOk [].
+Proof.
+  induction l as [|[c0 t0] l IH]; intros pos H c t Hin; [contradiction|].
+  simpl in H. apply nres_app_ok in H. destruct H as [H1 H2].
+  destruct Hin as [E|Hin].
+  - inversion E; subst. eauto.
+  - eapply IH; eassumption.
+Qed.
+
+Lemma go_check_quiet : forall fuel p l pos,
+  (forall c t, In (c, t) l -> forall p', quiet (check_ty m fuel p' t)) ->
+  quiet (go_check fuel p pos l).
+Proof.
+  induction l as [|[c0 t0] l IH]; intros pos H; simpl; [left; reflexivity|].
+  apply nres_app_quiet.
+  - apply (H c0 t0). left. reflexivity.
+  - apply IH. intros c t Hin. apply (H c t). right. exact Hin.
+Qed.
+
+(* every expression of an accepted type passed its own checks *)
+Lemma check_ty_ok : forall fuel t p, check_ty m fuel p t = NOk [] ->
+  forall t', In t' (subtypes t) -> exists p', check_node m fuel p' t' = NOk [].
+Proof.
+  intro fuel. induction t as [pr|items|k r1 ext r2 IH1 IHe IH2|e IHe|r] using ty_ind'; intros p H t' Hin.
+  - destruct Hin as [E|[]]. subst. exists p. reflexivity.
+  - destruct Hin as [E|[]]. subst. exists p.
+    change (nres_app (check_node m fuel p (TEnum items)) (NOk []) = NOk []) in H.
+    apply nres_app_ok in H. tauto.
+  - rewrite check_ty_cons in H. rewrite subtypes_cons in Hin.
+    apply nres_app_ok in H. destruct H as [Hn H]. apply nres_app_ok in H. destruct H as [G1 H].
+    apply nres_app_ok in H. destruct H as [G2 Ge].
+    destruct Hin as [E|Hin]; [subst; eauto|].
+    assert (Sub : forall l pos, Forall (fun c => forall p, check_ty m fuel p (snd c) = NOk [] ->
+                     forall t', In t' (subtypes (snd c)) -> exists p', check_node m fuel p' t' = NOk []) l ->
+                   go_check fuel p pos l = NOk [] -> In t' (sub_go l) -> exists p', check_node m fuel p' t' = NOk []).
+    { intros l pos Fl Gl Hl. apply sub_go_In in Hl. destruct Hl as [c [t [Hc Ht]]].
+      destruct (go_check_ok fuel p l pos Gl c t Hc) as [p' Hp'].
+      rewrite Forall_forall in Fl. exact (Fl (c, t) Hc p' Hp' t' Ht). }
+    apply in_app_or in Hin. destruct Hin as [Hin|Hin]; [exact (Sub r1 _ IH1 G1 Hin)|].
+    apply in_app_or in Hin. destruct Hin as [Hin|Hin]; [exact (Sub r2 _ IH2 G2 Hin)|].
+    destruct ext as [a|]; [exact (Sub a _ IHe Ge Hin) | contradiction].
+  - change (nres_app (check_node m fuel p (TSeqOf e)) (check_ty m fuel (p ++ [0%nat]) e) = NOk []) in H.
+    apply nres_app_ok in H. destruct H as [Hn H].
+    simpl in Hin. destruct Hin as [E|Hin]; [subst; exists p; exact Hn|].
+    eapply IHe; eassumption.
+  - destruct Hin as [E|[]]. subst. exists p.
+    change (nres_app (check_node m fuel p (TRef r)) (NOk []) = NOk []) in H.
+    apply nres_app_ok in H. tauto.
+Qed.
+
+Lemma check_ty_quiet : forall fuel t,
+  (forall t', In t' (subtypes t) -> forall p', quiet (check_node m fuel p' t')) ->
+  forall p, quiet (check_ty m fuel p t).
+Proof.
+  intro fuel. induction t as [pr|items|k r1 ext r2 IH1 IHe IH2|e IHe|r] using ty_ind'; intros H p.
+  - left. reflexivity.
+  - change (quiet (nres_app (check_node m fuel p (TEnum items)) (NOk []))).
+    apply nres_app_quiet; [apply H; left; reflexivity | left; reflexivity].
+  - rewrite check_ty_cons. rewrite subtypes_cons in H.
+    assert (Sub : forall l pos, Forall (fun c => (forall t', In t' (subtypes (snd c)) -> forall p', quiet (check_node m fuel p' t')) ->
+                     forall p, quiet (check_ty m fuel p (snd c))) l ->
+                   (forall t', In t' (sub_go l) -> forall p', quiet (check_node m fuel p' t')) ->
+                   quiet (go_check fuel p pos l)).
+    { intros l pos Fl Hl. apply go_check_quiet. intros c t Hc p'.
+      rewrite Forall_forall in Fl. apply (Fl (c, t) Hc).
+      intros t' Ht'. apply Hl. clear - Hc Ht'.
+      induction l as [|[c0 t0] l IHl]; [contradiction|]. simpl. apply in_or_app.
+      destruct Hc as [E|Hc]; [inversion E; subst; left; exact Ht' | right; apply IHl; exact Hc]. }
+    apply nres_app_quiet; [apply H; left; reflexivity|].
+    apply nres_app_quiet; [apply (Sub r1 _ IH1); intros t' Ht'; apply H; right; apply in_or_app; left; exact Ht'|].
+    apply nres_app_quiet; [apply (Sub r2 _ IH2); intros t' Ht'; apply H; right; apply in_or_app; right; apply in_or_app; left; exact Ht'|].
+    destruct ext as [a|]; [|left; reflexivity].
+    apply (Sub a _ IHe). intros t' Ht'. apply H. right. apply in_or_app. right. apply in_or_app. right. exact Ht'.
+  - change (quiet (nres_app (check_node m fuel p (TSeqOf e)) (check_ty m fuel (p ++ [0%nat]) e))).
+    apply nres_app_quiet; [apply H; left; reflexivity|].
+    apply IHe. intros t' Ht'. apply H. right. exact Ht'.
+  - change (quiet (nres_app (check_node m fuel p (TRef r)) (NOk []))).
+    apply nres_app_quiet; [apply H; left; reflexivity | left; reflexivity].
+Qed.
+End Module.
